@@ -219,7 +219,7 @@ class SunAzimuthProducerCompare(SunProducer, SunFuncIgnoringCompare):
 
         dt = dt_datetime(date.year, date.month, date.day, 12, 0, 0, tzinfo=dt_timezone.utc)
 
-        while not_infinite_loop():
+        for _ in not_infinite_loop():
             az = sun.azimuth(observer, dt)
             az_diff = abs(az_target - az)
             sign = 1 if az_target > az else -1
